@@ -23,6 +23,9 @@ theorem tie_h_node_signal : Extracted.Sched.h_node_signal = Canon.Sched.h_node_s
 theorem tie_h_node_cancel : Extracted.Sched.h_node_cancel = Canon.Sched.h_node_cancel := by decide +kernel
 theorem tie_h_node_setErr : Extracted.Sched.h_node_setErr = Canon.Sched.h_node_setErr := by decide +kernel
 theorem tie_h_node_setStatus : Extracted.Sched.h_node_setStatus = Canon.Sched.h_node_setStatus := by decide +kernel
+theorem tie_h_cond_Condition_eval : Extracted.Sched.h_cond_Condition_eval = Canon.Sched.h_cond_Condition_eval := by decide +kernel
+theorem tie_h_cond_evalCondition : Extracted.Sched.h_cond_evalCondition = Canon.Sched.h_cond_evalCondition := by decide +kernel
+theorem tie_h_cond_EvalConditions : Extracted.Sched.h_cond_EvalConditions = Canon.Sched.h_cond_EvalConditions := by decide +kernel
 theorem tie_h_node_finish : Extracted.Sched.h_node_finish = Canon.Sched.h_node_finish := by decide +kernel
 theorem tie_h_node_State : Extracted.Sched.h_node_State = Canon.Sched.h_node_State := by decide +kernel
 theorem tie_h_node_SetError : Extracted.Sched.h_node_SetError = Canon.Sched.h_node_SetError := by decide +kernel
@@ -69,6 +72,9 @@ theorem tie_statusCascade : Extracted.Sched.statusCascade = Canon.Sched.statusCa
 #print axioms tie_h_node_cancel
 #print axioms tie_h_node_setErr
 #print axioms tie_h_node_setStatus
+#print axioms tie_h_cond_Condition_eval
+#print axioms tie_h_cond_evalCondition
+#print axioms tie_h_cond_EvalConditions
 #print axioms tie_h_node_finish
 #print axioms tie_h_node_State
 #print axioms tie_h_node_SetError
